@@ -224,7 +224,9 @@ class Program:
         r = rng.random()
         self.n = rng.randint(1, 8) if r < 0.6 else rng.randint(8, 20) if r < 0.92 else rng.randint(20, 50)
         if tier == "thorough" and rng.random() < 0.2:
-            self.n = rng.randint(60, 150)  # thorough tier: some very long histories
+            self.n = rng.randint(60, 300)  # thorough tier: some very long histories
+        elif tier != "thorough" and rng.random() < 0.008:
+            self.n = rng.randint(110, 280)  # quick tier: the occasional very long script (more than 100 / 256 steps)
         self.p_fault = rng.choice([0.0, 0.15, 0.25, 0.4])
 
     def source(self, i, sess):
